@@ -300,6 +300,11 @@ class Engine:
             ex = [n for n in cands if mir.strip_generics(n) == c2]
             if len(ex) == 1: return ex[0]
             raise EngineError(f'ambiguous call {callee}: {cands}')
+        # `module::<impl Type>::method` (inherent impl named by its module): unique method name over all impls
+        mi = re.search(r'<impl ([^>]*)>::(\w+)$', c)
+        if mi:
+            ty = s._tyseg(mi.group(1)); c4 = s.index.get((ty, None, mi.group(2)), [])
+            if len(c4) == 1: return c4[0]
         return None
     def find_fn(s, pattern):
         c = [n for n in s.fns if re.search(pattern, n)]
